@@ -1880,6 +1880,7 @@ def run_representations(level):
                 for dt in (np.float64, np.float32):
                     groups.append((f"Categorical(table of {nsym} entries #{kind}, {kw}, {dt.__name__})", [("in the constructor", M.Categorical(np.array(t, dtype=dt), **kw), None),
                         ("per symbol", M.Categorical(**kw), lambda k, t=t, dt=dt: (np.array([t] * k, dtype=dt),)),
+                        ("per symbol, the rows in a Fortran-ordered array", M.Categorical(**kw), lambda k, t=t, dt=dt: (np.asfortranarray(np.array([t] * k, dtype=dt)),)),
                         ("in the constructor, the table normalised by the caller in its own precision", M.Categorical(np.array(t, dtype=dt), **kw), None)], [0, nsym - 1, 5]))
     with Quiet():
         for gname, reps, syms in groups:
